@@ -418,10 +418,15 @@ Trailing(r) ==
                   \* blanks after a comment are part of the comment: such a line is left as it is
                   /\ (Len(r.lex[i]) = 0 \/ r.lex[i][Len(r.lex[i])].k # "comment")
         n(i) == IF i % 6 = 1 THEN 1 ELSE 2            \* one blank or two: a name ends before either
+        \* an empty line BETWEEN entries (the first line of the file, or the second of two empty lines: whatever came before
+        \* has ended) may hold blanks an editor left behind; it is still an empty line
+        between(i) == r.lines[i] = "" /\ (i = 1 \/ r.lines[i - 1] = "")
+        add(i) == IF hit(i) THEN n(i) ELSE IF between(i) THEN 2 ELSE 0
     IN
-    [r EXCEPT !.lines = [i \in 1..Len(r.lines) |-> IF hit(i) THEN r.lines[i] \o (IF n(i) = 1 THEN " " ELSE "  ") ELSE r.lines[i]],
-              !.u16   = [i \in 1..Len(r.lines) |-> IF hit(i) THEN r.u16[i] + n(i) ELSE r.u16[i]],
-              !.runes = [i \in 1..Len(r.lines) |-> IF hit(i) THEN r.runes[i] + n(i) ELSE r.runes[i]]]
+    [r EXCEPT !.lines = [i \in 1..Len(r.lines) |-> IF hit(i) THEN r.lines[i] \o (IF n(i) = 1 THEN " " ELSE "  ")
+                                                    ELSE IF between(i) THEN (IF i % 2 = 0 THEN "  " ELSE " \t") ELSE r.lines[i]],
+              !.u16   = [i \in 1..Len(r.lines) |-> r.u16[i] + add(i)],
+              !.runes = [i \in 1..Len(r.lines) |-> r.runes[i] + add(i)]]
 
 (* ---- helpers for writing choice records ----------------------------------------------------- *)
 D(y, m, d) == [y |-> y, m |-> m, d |-> d, sep |-> "-", pad |-> TRUE]
